@@ -122,8 +122,15 @@ def check(ctx: Ctx) -> list[RuleResult]:
     # ---- R4 -------------------------------------------------------------------------
     r4 = RuleResult("R4", "serial buffer carry (dependence)", "frames handed to _frame_read depend on the persistent _recv_buffer; the buffer depends on its previous value and the new read", min_instances=3)
     f = repo.func("ramses_tx.transport.PortTransport._read_ready")
-    deps = Deps(f)
     BUF = "self._recv_buffer"
+    # a line splitter that was a nested generator and is now a private method of the same class is still part of the read path
+    helpers4 = {}
+    for cs in ctx.cg.calls_in(f):
+        for c in cs.callees:
+            if c.cls is f.cls and c is not f and isinstance(cs.node, ast.Call) and isinstance(cs.node.func, ast.Attribute) and norm(cs.node.func.value) == "self" and any(isinstance(x, ast.Attribute) and x.attr == "_recv_buffer" for x in own_nodes(c.node)):
+                helpers4[c.name] = c
+    deps = Deps(f, helpers=helpers4)
+    scope4 = [f] + list(f.nested.values()) + list(helpers4.values())
     calls = [n for n in own_nodes(f.node) if isinstance(n, ast.Call) and ast.unparse(n.func).endswith("_frame_read")]
     if not calls:
         raise AnalysisError("no _frame_read call in PortTransport._read_ready")
@@ -138,7 +145,7 @@ def check(ctx: Ctx) -> list[RuleResult]:
             r4.fail(f"{f.short}:frame-arg-independent-of-buffer", f.loc(c), "the frame passed to _frame_read does not depend on the persistent receive buffer: a frame split across two reads cannot be reassembled", [f"depends on: {sorted(d)[:12]}"])
     # (ii) every plain assignment to the buffer carries state
     writes = []
-    for g in [f] + list(f.nested.values()):
+    for g in scope4:
         for n in own_nodes(g.node):
             if isinstance(n, (ast.Assign, ast.AugAssign, ast.AnnAssign)):
                 tgts = n.targets if isinstance(n, ast.Assign) else [n.target]
@@ -156,7 +163,7 @@ def check(ctx: Ctx) -> list[RuleResult]:
         else:
             r4.fail(f"{f.short}:{norm(n)}", g.loc(n), "an assignment to _recv_buffer discards the carried bytes (its value depends neither on the previous buffer nor on the unterminated tail)", [f"value depends on: {sorted(d)[:10]}"])
     # (iv) the decision to split depends on the carried buffer too (a CR LF pair may straddle two reads)
-    for g in [f] + list(f.nested.values()):
+    for g in scope4:
         for n in own_nodes(g.node):
             if isinstance(n, ast.If) and any(isinstance(x, (ast.Yield, ast.YieldFrom)) or (isinstance(x, ast.Assign) and any(norm(t) == BUF for t in x.targets)) for b in n.body for x in ast.walk(b)):
                 r4.instances += 1
@@ -169,7 +176,7 @@ def check(ctx: Ctx) -> list[RuleResult]:
     # (iii) no other writer
     others = []
     for g in repo.funcs.values():
-        if g is f or g.parent is f:
+        if g in scope4:
             continue
         for n in own_nodes(g.node):
             if isinstance(n, ast.Attribute) and n.attr == "_recv_buffer" and isinstance(n.ctx, (ast.Store, ast.Del)):
@@ -186,7 +193,7 @@ def check(ctx: Ctx) -> list[RuleResult]:
     # reads is only recognised in the concatenation of the carried tail and the new data (flow-sensitive within the closure:
     # an operand that is the bare `data` parameter, before it was appended to the buffer, does not count)
     searched = []
-    for g in [f] + list(f.nested.values()):
+    for g in scope4:
         for n in own_nodes(g.node):
             operand = None
             if isinstance(n, ast.Compare) and len(n.ops) == 1 and isinstance(n.ops[0], (ast.In, ast.NotIn)) and isinstance(n.left, ast.Constant) and isinstance(n.left.value, bytes) and b"\n" in n.left.value:
